@@ -193,7 +193,83 @@ def main():
                         f'get_bv_width gives {gw}, the term has '
                         + (f'width {w}' if w is not None else
                            'no bit-vector sort'))
+    check_datatypes(rec)
     rec.finish()
+
+
+DATATYPE_SCRIPTS = [
+    [['declare-datatype', 'Pair', [['mk', ['fst', 'Int'], ['snd', 'Bool']],
+                                   ['nil']]]],
+    [['declare-datatypes', [['Color', '0'], ['Shape', '0']],
+      [[['red'], ['green']],
+       [['circle', ['radius', 'Int']],
+        ['rect', ['width', 'Int'], ['height', 'Int']], ['dot']]]]],
+    [['declare-datatypes', [['A', '0'], ['B', '0'], ['C', '0']],
+      [[['a1', ['s1', 'Int'], ['s2', 'Int'], ['s3', 'Int']], ['a2']],
+       [['b1'], ['b2', ['t1', 'B']]],
+       [['c1', ['u1', 'A'], ['u2', 'B']], ['c2'], ['c3', ['u3', 'C']]]]]],
+    [['declare-datatype', 'L', [['nil2'], ['cons', ['hd', 'Int'],
+                                           ['tl', 'L']]]],
+     ['declare-datatype', 'M', [['m0'], ['m1', ['x1', 'L']]]]],
+]
+
+
+def check_datatypes(rec):
+    """symbol tables for datatypes: constructor -> its datatype, selector ->
+    (constructor, position), nullary constructors as default constants"""
+    for script in DATATYPE_SCRIPTS:
+        exprs = [build(x) for x in script]
+        smtlib.collect_information(exprs)
+        want_ctor = {}
+        want_sel = {}
+        nullary = {}
+        for cmd in script:
+            if cmd[0] == 'declare-datatype':
+                decls = [(cmd[1], cmd[2])]
+            else:
+                decls = [(s[0], cs) for s, cs in zip(cmd[1], cmd[2])]
+            for dt, ctors in decls:
+                for c in ctors:
+                    want_ctor[c[0]] = dt
+                    if len(c) == 1:
+                        nullary.setdefault(dt, []).append(c[0])
+                    for i, sel in enumerate(c[1:]):
+                        want_sel[sel[0]] = (c[0], i)
+        case = {'script': ' '.join(sexpr(x) for x in script)}
+        for c, dt in want_ctor.items():
+            nargs = sum(1 for k, (cc, _) in want_sel.items() if cc == c)
+            if nargs == 0:
+                continue
+            term = build([c] + ['v'] * nargs)
+            rec.case(('dt-ctor', case['script'], c))
+            got = smtlib.get_sort(term)
+            if got is not None and plain(got) != dt:
+                rec.violation('C16/native/datatypes/constructor-sort',
+                              {**case, 'term': sexpr(plain(term))},
+                              f'get_sort gives {sexpr(plain(got))}, the '
+                              f'constructor belongs to {dt}')
+        for s_, (c, i) in want_sel.items():
+            rec.case(('dt-sel', case['script'], s_))
+            node = build([s_, 'v'])
+            if smtlib.is_dt_selector(node):
+                gc, gi = smtlib.get_dt_selector(node)
+                if (plain(gc) if hasattr(gc, 'is_leaf') else gc) != c or \
+                        gi != i:
+                    rec.violation('C16/native/datatypes/selector-table',
+                                  {**case, 'selector': s_},
+                                  f'registered as field {gi} of '
+                                  f'{plain(gc) if hasattr(gc, "is_leaf") else gc}'
+                                  f', declared as field {i} of {c}')
+        for dt in {d for d in want_ctor.values()}:
+            rec.case(('dt-consts', case['script'], dt))
+            got = [plain(x) for x in smtlib.get_default_constants(
+                build(dt))]
+            bad = [x for x in got if x not in nullary.get(dt, [])]
+            if bad:
+                rec.violation('C16/native/datatypes/default-constants',
+                              {**case, 'sort': dt},
+                              f'constants {bad} are not nullary '
+                              f'constructors of {dt}')
 
 
 if __name__ == '__main__':
